@@ -234,6 +234,11 @@ def _dedisp_block_window(prog: Program, res: Result, rd, fl) -> None:
                 f"(expected the range [min(min_sample), max(max_sample)))", key=key_c)
 
 
+def strip_labels(t: str) -> str:
+    import re
+    return re.sub(r"@\d+", "", t)
+
+
 def run(prog: Program, res: Result, tier: str) -> None:
     prog.consulted.update({KMOD, PARAMS, HEADER, "sigpyproc.base", "sigpyproc.block", "sigpyproc.readers",
                            "sigpyproc.foldedcube", "sigpyproc.simulation.furby"})
@@ -274,10 +279,18 @@ def run(prog: Program, res: Result, tier: str) -> None:
     f32 = [s for s in body_walk(cd.node) if isinstance(s, ast.Assign) and norm(s.targets[0]) in ("freqs", "dm") and "float32" in norm(s.value)]
     dmshape = [s for s in body_walk(cd.node) if isinstance(s, ast.Assign) and norm(s.targets[0]) == "dm" and "[:, np.newaxis]" in norm(s.value)]
     key = "shape"
-    if dmshape and norm(rets[0].value) == "delays.squeeze()":
-        res.ok("R2", cd, rets[0], "DM axis is broadcast against the frequency axis; scalar DM squeezes to one delay per channel", key=key)
+    fcd = flow_of(cd)
+    scalar_sel = False
+    if len(rets) == 1 and isinstance(rets[0].value, ast.IfExp) and norm(rets[0].value.body) == "delays[0]" and norm(rets[0].value.orelse) == "delays":
+        # the choice is made on the dimensionality of the DM *as given* (before it is reshaped to a column)
+        tx = fcd.expand(rets[0].value.test, fcd.cfg.node_for(rets[0]))
+        from ..normalform import canon as _canon_r
+        scalar_sel = strip_labels(_canon_r(tx)) in (_canon_r("np.ndim(dm) == 0"), _canon_r("np.isscalar(dm)"), _canon_r("np.asarray(dm).ndim == 0"))
+    if dmshape and scalar_sel:
+        res.ok("R2", cd, rets[0], "DM axis is broadcast against the frequency axis; only the DM axis of a scalar DM is dropped, so there is one delay "
+               "per channel for any channel count", key=key)
     else:
-        res.bad("R2", cd, rets[0], "compute_dmdelays no longer returns (ndm, nchan) delays squeezed", key=key)
+        res.bad("R2", cd, rets[0], "compute_dmdelays does not return (ndm, nchan) delays with exactly the DM axis of a scalar DM removed", key=key)
 
     # ---- R1 single source -----------------------------------------------------------------------
     gd = prog.func(HEADER, "Header.get_dmdelays")
@@ -471,6 +484,10 @@ def run(prog: Program, res: Result, tier: str) -> None:
         else:
             res.bad("R5", gd, ga[0], f"reference-frequency names {names or '(not a literal set)'} are not resolved through the Header attributes "
                     f"f<name> (fmax/fmin/fcenter/fch1, missing {missing}): a separate lookup can disagree with them (e.g. for ascending bands)", key=key)
+    # ---- R2 (cont.) one delay per channel for any channel count: no unqualified squeeze on the delay arrays (F34) ----
+    from ..lints import check_no_bare_squeeze
+    check_no_bare_squeeze(prog, res, "R2", ["sigpyproc.params"], "with one channel (or one sub-band) the delays become a 0-d array that "
+                          "cannot be indexed per channel")
     # ---- R7 the plan the streamed dedispersion consumes (shared with C01) -------------------------------------------
     depends(res, "R7", prog, tier, "C01", why="the blocks these loops consume come from read_plan: the plan rules of C01 (and, through them, the multi-file stream rules of C02) are re-evaluated here")
     res.floor("R7", 40)
@@ -568,6 +585,10 @@ BL = "sigpyproc/block.py"
 K = "sigpyproc/core/kernels.py"
 P = "sigpyproc/params.py"
 MUTANTS = [
+    {"id": "c09-revert-F34", "file": "sigpyproc/params.py", "expect": "C09.R2",
+     "old": "    # Only the DM axis of a scalar DM is dropped: one channel stays a 1D array\n    return delays[0] if scalar_dm else delays\n", "new": "    return delays.squeeze()\n"},
+    {"id": "c09-delays-first-row-always", "file": "sigpyproc/params.py", "expect": "C09.R2",
+     "old": "    return delays[0] if scalar_dm else delays\n", "new": "    return delays[0]\n"},
     {"id": "c09-revert-F27", "file": "sigpyproc/readers.py", "expect": "C09.R3",
      "old": "            range(first_sample, last_sample),", "new": "            range(start, start + nsamps),"},
     {"id": "c09-F27-seek-start", "file": "sigpyproc/readers.py", "expect": "C09.R3",
